@@ -16,7 +16,7 @@ def ambiguous(b, h1):
 def run(R):
     if not R.build():
         return
-    R.lean(["C06"])
+    R.lean(["C06", "C06Run"])
     quick = R.tier == "quick"
     rng = R.rng
     reqs, meta = [], {}
